@@ -90,6 +90,18 @@ CLAIMS = {
              note="Python object identity is modelled as creation ordinal; operations on nodes that are not members are outside the property.",
              tech="Coq proof: refinement of a pointer heap to a list (pointwise successor/predecessor invariant), induction over histories; differential correspondence",
              ref="DESIGN.md §4 C08"),
+ "C05": dict(text="Coq theorems for FunctorMap and mul_p_map as one labelled transition system (main thread + W worker processes, bounded work "
+             "queue, results queue), for EVERY worker count >= 1, queue bound, history of calls and schedule: each completed call returned "
+             "exactly its input in order (through the reorder buffer resp. the final sort by index - sorting a permutation of 0..n-1 gives the "
+             "input order); repeated calls are matched call by call; deadlock freedom and a strictly decreasing measure, hence termination "
+             "with all workers stopped and joined under every scheduler. A non-blocking get may spuriously report Empty (enabled in every state "
+             "of the drain loop). Tied to /repo by trace acceptance under the controlled scheduler (also with spurious Empty and a bounded "
+             "results pipe on the implementation side).",
+             note=("Modelled, not verified: multiprocessing.Queue as an atomic FIFO (the bounded pipe behind it is exercised by the harness only, the model "
+                   "has no pipe); processes as threads; Process.start/join and the two module-level queue names are rebound inside the sandboxed child "
+                   "(harness/props/c05.py), the pool code itself is unmodified. The mapped function is uninterpreted and returns normally. "),
+             tech="Coq proof: conservation invariant + stop-order accounting invariant over an LTS, sorted-permutation uniqueness, potential function; trace-acceptance correspondence under a controlled scheduler",
+             ref="DESIGN.md §4 C05"),
  "C06": dict(text="Coq theorems over all capacities >= 1 and all histories: every public operation (views, get, pop, popitem, clear, "
              "update, setdefault, in, ==) is a finite sequence of the three primitives (so it terminates); bounded size and one value per "
              "key in every reachable state; lookup/store/delete specifications incl. exact eviction of the last key; the order is recency "
